@@ -3,7 +3,7 @@ boundary families and which oracle clauses (O) are run."""
 from fractions import Fraction as F
 
 from .core import Case, gen_random, special_matrix
-from .sigs import SIG
+from .sigs import SIG, EXTRA as EXTRA_OPS, C18_OPS, C16_OPS
 
 REG = {}
 
@@ -54,6 +54,8 @@ class Base:
 def ops_with_prefix(*prefixes, exclude=()):
     out = []
     for k in SIG:
+        if k in EXTRA_OPS:      # the C18 / C16 operations of sigs.EXTRA belong to those two properties only
+            continue
         if any(k.startswith(p) for p in prefixes) and k not in exclude:
             out.append(k)
     return out
@@ -1216,7 +1218,7 @@ class C19(Base):
 class C16(Base):
     title = "layout, indexing, conversions and swizzles preserve every component in order"
     design_ref = "§6 C16"
-    ops = []
+    ops = C16_OPS     # Index / IndexMut / swap_elements at the exact scalar against the model (sigs.EXTRA; kernels: tracetab_ops.py)
     inventory = "layout"
     miri = True   # thorough tier: the same native run under Miri (Tree Borrows)
     technique = ("Lean 4 theorems about a model of build.rs's swizzle generator (every word of length 1..upto exactly once, each "
@@ -1231,12 +1233,34 @@ class C16(Base):
     def native_args(self, tier, seed):
         return ["native", "c16", "0", str(seed)]
 
+    def families(self, rng, tier):
+        """every in-range index (tuple) and the out-of-range ones next to the range, on distinct components"""
+        from .sigs import ARRAY_TYPES
+        out = []
+        q = rng.distinct(4)
+        for i in range(6):
+            out.append(Case("q.index", q, [i], family="index-exhaustive"))
+            out.append(Case("q.set", q + [rng.rat_nz()], [i], family="index-exhaustive"))
+        for ty in ARRAY_TYPES:
+            n = int(ty[1])
+            u = rng.distinct(n)
+            for i in range(n + 2):
+                out.append(Case(f"{ty}.set", u + [rng.rat_nz()], [i], family="index-exhaustive"))
+                for j in range(n + 2):
+                    out.append(Case(f"{ty}.swap_elements", u, [i, j], family="index-exhaustive"))
+        for n in (2, 3, 4):
+            m = rng.distinct(n * n)
+            for c in range(n + 2):
+                for r in range(n + 2):
+                    out.append(Case(f"m{n}.set", m + [rng.rat_nz()], [c, r], family="index-exhaustive"))
+        return out
+
 
 @prop("C18")
 class C18(Base):
     title = "approximate-equality and predicate methods test every component"
     design_ref = "§6 C18"
-    ops = []
+    ops = C18_OPS     # the approx relations of the compound types, explicit and default tolerances (sigs.EXTRA; kernels: tracetab_ops.py)
     technique = BOOK_TECH
     level_note = ("Trusted: Lean kernel + Mathlib; the approx crate's scalar relations are the parameter `r` of the model (their "
                   "verdicts are read off the implementation per component and fed to the model); the tie is exhaustive over "
@@ -1245,6 +1269,70 @@ class C18(Base):
 
     def native_args(self, tier, seed):
         return ["native", "c18", "0", str(seed)]
+
+    def families(self, rng, tier):
+        """random inputs practically never agree within a tolerance: here `b` is `a` with every component moved by a
+        multiple of the tolerance around the boundary (exactly on it, just inside, just outside), all components inside /
+        exactly one component `k` outside / the components from `k` on outside; relative and ulps clauses with a scale at
+        which they -- not the absolute clause -- decide; default forms around `2^-52` and around the matrices' `1e-6`"""
+        from .sigs import APPROX_TYPES, SIZES
+        out = []
+        reps = 2 if tier == "quick" else 12
+        e52 = F(1, 2 ** 52)
+        mat_eps = F(4722366482869645, 4722366482869645213696)
+        inside = [F(0), F(1), F(-1), F(1, 2), F(-999, 1000)]
+        outside = [F(1001, 1000), F(-1001, 1000), F(2), F(-3)]
+
+        def moved(a, scale, k, mode):
+            """b: component i moved by (a multiple of) `scale(a_i)`; mode: 'in' all inside, 'one' only k outside, 'from' k.. outside"""
+            b = []
+            for i, x in enumerate(a):
+                out_ = (mode == "one" and i == k) or (mode == "from" and i >= k)
+                f = rng.choice(outside) if out_ else rng.choice(inside)
+                b.append(x + f * scale(x))
+            return b
+
+        for ty, kind in APPROX_TYPES.items():
+            n = SIZES[kind]
+            modes = [("in", 0)] + [("one", k) for k in range(n)] + [("from", k) for k in range(n)]
+            for _ in range(reps):
+                for mode, k in modes:
+                    a = rng.distinct(n)
+                    eps = abs(rng.rat_nz())
+                    fam = f"tolerance-boundary/{mode}"
+                    out.append(Case(f"{ty}.abs_diff_eq", a + moved(a, lambda x: eps, k, mode) + [eps], family=fam))
+                    # absolute clause decides
+                    out.append(Case(f"{ty}.relative_eq", a + moved(a, lambda x: eps, k, mode) + [eps, F(0)], family=fam))
+                    out.append(Case(f"{ty}.ulps_eq", a + moved(a, lambda x: eps, k, mode) + [eps], [0], family=fam))
+                    # relative clause decides (epsilon 0; |a - b| = f * |a| * max_rel, max(|a|,|b|) >= |a|; outside: b shrinks)
+                    mr = F(1, rng.rng(2, 50))
+                    b = []
+                    for i, x in enumerate(a):
+                        out_ = (mode == "one" and i == k) or (mode == "from" and i >= k)
+                        f = rng.choice([F(3, 2), F(2), F(5)]) if out_ else rng.choice([F(0), F(1), F(1, 2), F(-1, 3)])
+                        b.append(x - f * x * mr if out_ else x + f * x * mr)
+                    out.append(Case(f"{ty}.relative_eq", a + b + [F(0), mr], family=fam + "/relative"))
+                    out.append(Case(f"{ty}.relative_eq", a + b + [F(-1), mr], family=fam + "/negative-epsilon"))
+                    # ulps clause decides: |a - b| = j * |a| * 2^-52 against max_ulps = u
+                    u = rng.rng(1, 8)
+                    b = []
+                    for i, x in enumerate(a):
+                        out_ = (mode == "one" and i == k) or (mode == "from" and i >= k)
+                        j = (u + rng.rng(1, 3)) if out_ else rng.rng(0, u)
+                        b.append(x - j * x * e52 if out_ else x + j * x * e52)
+                    out.append(Case(f"{ty}.ulps_eq", a + b + [F(0)], [u], family=fam + "/ulps"))
+                    # default forms: around the scalar's 2^-52 and around the matrices' 1e-6
+                    for d in (e52, mat_eps):
+                        bb = moved(a, lambda x: d, k, mode)
+                        for op in ("abs_diff_eq_d", "relative_eq_d", "ulps_eq_d"):
+                            out.append(Case(f"{ty}.{op}", a + bb, family=fam + "/default"))
+            # identical operands, zero / negative epsilon
+            a = rng.distinct(n)
+            out.append(Case(f"{ty}.abs_diff_eq", a + a + [F(0)], family="edge"))
+            out.append(Case(f"{ty}.abs_diff_eq", a + a + [F(-1)], family="edge"))
+            out.append(Case(f"{ty}.relative_eq", a + a + [F(0), F(0)], family="edge"))
+            out.append(Case(f"{ty}.ulps_eq", a + a + [F(0)], [0], family="edge"))
+        return out
 
 
 @prop("C20")
